@@ -21,11 +21,20 @@ Spec protocol (a state is the action history that reaches it, live objects are r
 """
 from __future__ import annotations
 
+import gc
+
 from vmc import explore
 from vmc import par
 from vmc.tally import HarnessError, Tally, digest
 
 _STATE = None
+
+
+def _freeze():
+    """move everything allocated so far out of the cyclic collector's reach: otherwise the first collection in every
+    forked worker writes into each inherited object's GC header and copies the whole heap (seconds of page faults)"""
+    gc.collect()
+    gc.freeze()
 
 
 def _expand_level(spec, frontier, depth, t: Tally, seen: set):
@@ -102,6 +111,7 @@ def dfs_dev_many(keys, make_exec, bound, tally: Tally, log=None, nchunks=None, s
     if log:
         log("dfs_dev_many: %d default executions, %d first-level deviations" % (len(keys), len(tasks)))
     _DFS = (make_exec, bound)
+    _freeze()
     try:
         par.pmap_tally(_dfs_worker, tasks, tally, nchunks=nchunks or par.NPROC * 8)
     finally:
@@ -137,6 +147,7 @@ def bfs_once(spec, depth, tally: Tally, log=None, split=120, stages=2, nchunks=N
         if not frontier:
             break
         _STATE = (spec, depth, seen, stop)
+        _freeze()
         try:
             if log:
                 log("dealing %d frontier states at depth %d to workers (until depth %d, bound %d)" % (len(frontier), len(frontier[0][0]), min(stop, depth), depth))
